@@ -87,7 +87,7 @@ def cls_for(names, inherit=False):
             parent = cls_for(names[:1])
             parent(np.arange(2))[0:1]                                   # the parent class has been used before the child exists
             ns = {"__annotations__": {n: np.ndarray for n in names[1:]}}
-            base = type("T_" + "_".join(names) + "_child", (parent.dataclass,), ns)
+            base = type("T_" + "_".join(names) + "_child", (parent,), ns)       # class Child(Parent), Parent itself an npdataclass
         else:
             ns = {"__annotations__": {n: np.ndarray for n in names}}
             base = type("T_" + "_".join(names), (), ns)
